@@ -41,6 +41,11 @@ type c13Plan struct {
 	// (with the reader parked on a full receive queue that call waits); Close returns all the same, and so does the
 	// setter afterwards.
 	SetLast int `json:"set_last,omitempty"`
+	// BrokenPipe (closed-calls, conn-close): before the close the connection breaks in the sending direction: the
+	// logout or the teardown cannot be written. Close reports that - and has closed the channel all the same.
+	BrokenPipe bool `json:"broken_pipe,omitempty"`
+	// FloodEED (flood): what keeps arriving are server messages, which NextPackageUntil collects itself.
+	FloodEED bool `json:"flood_eed,omitempty"`
 	// Flood (cancel): the response has hundreds of packages and no end, the consumer is one NextPackageUntil call whose
 	// callback wants them all: packets keep arriving while the call runs and after its context is cancelled. Once
 	// cancelled the call may still hand out what was queued at that moment, but it returns - it does not go on for
@@ -117,7 +122,7 @@ func (c13) Gen(r *Rand, idx int, tier string) interface{} {
 	p.Consumer = Pick(r, []string{"next", "until", "until-nil", "until-err"})
 	p.SendAfter = r.Pct(50)
 	p.CauseCtx = p.Kind == "cancel" && r.Pct(30)
-	if p.Kind == "cancel" && r.Pct(15) {
+	if p.Kind == "cancel" && r.Pct(25) {
 		p.Flood, p.Consumer, p.Final, p.Async = true, "until-all", false, true
 		p.NPkgs = 150 + r.Intn(250)
 		p.CancelAfter = 5 + r.Intn(60)
@@ -138,7 +143,14 @@ func (c13) Gen(r *Rand, idx int, tier string) interface{} {
 		p.StallWindow = Pick(r, []int{0, 4, 16, 100})
 	}
 	if p.Kind == "close-queue" && p.StallWindow < 0 && r.Pct(30) {
-		p.SetLast = 1 + r.Intn(2)
+		// (3: the consumer itself calls SetLastPkgRx between two receives)
+		p.SetLast = 1 + r.Intn(3)
+	}
+	if (p.Kind == "closed-calls" || p.Kind == "conn-close") && p.StallWindow < 0 && !p.DeadPeer && !p.PendingSetup && r.Pct(12) {
+		p.BrokenPipe = true
+	}
+	if p.Flood && r.Pct(50) {
+		p.FloodEED = true
 	}
 	if p.Kind == "close-errqueue" {
 		p.BadPackets = 1 + r.Intn(14)
@@ -228,7 +240,7 @@ func c13Pending(p *c13Plan) int {
 }
 
 // c13EndPeer ends the peer's side of the current run's connection (set by Run; runs are sequential per process).
-var c13EndPeer, c13StallPeer func()
+var c13EndPeer, c13StallPeer, c13BreakPipe func()
 
 type c13Res struct {
 	setupErr   string
@@ -255,6 +267,8 @@ type c13Res struct {
 	connClosedAt time.Duration
 	// flood: packages handed to the callback after the context was cancelled
 	afterCancel int
+	// flood: the consumer's own steps between the cancellation taking effect and the call's return
+	floodSteps int
 }
 
 func (r *c13Res) violate(class, sig, format string, a ...interface{}) {
@@ -329,6 +343,10 @@ func (c13) Run(plan interface{}, schedSeed uint64, replay []simrt.Choice, lenien
 			body = append(body, peer.EED(20001, 1, 16, "ZZZZZ", 0, 0, "a message of the server", "srv", "", 1)...)
 		}
 		for k := 0; k < p.NPkgs; k++ {
+			if p.FloodEED {
+				body = append(body, peer.EED(int32(30000+k), 1, 16, "ZZZZZ", 0, 0, "m", "srv", "", 1)...)
+				continue
+			}
 			body = append(body, peer.Done(0x11, 0, int32(1000+k))...)
 		}
 		eom := p.Final
@@ -339,7 +357,11 @@ func (c13) Run(plan interface{}, schedSeed uint64, replay []simrt.Choice, lenien
 			return
 		}
 		// one package per packet so that arrival interleaves with the clients
-		pr.SendPackets(peer.Packetise(body, peer.CutsBySize(len(body), 9), peer.BufResponse, m.Channel, eom))
+		per := 9
+		if p.FloodEED {
+			per = len(peer.EED(30000, 1, 16, "ZZZZZ", 0, 0, "m", "srv", "", 1))
+		}
+		pr.SendPackets(peer.Packetise(body, peer.CutsBySize(len(body), per), peer.BufResponse, m.Channel, eom))
 	}
 
 	c13SetupsDone = false
@@ -349,6 +371,14 @@ func (c13) Run(plan interface{}, schedSeed uint64, replay []simrt.Choice, lenien
 			simrt.Sched(func() {
 				pr.Conn.PeerStalled, pr.Conn.SendWindow = true, p.StallWindow
 				s.Fault("peer-stops-reading")
+			})
+		}
+	}
+	c13BreakPipe = func() {
+		if p.BrokenPipe {
+			simrt.Sched(func() {
+				pr.Conn.BreakPipe()
+				s.Fault("connection-broken-for-writes")
 			})
 		}
 	}
@@ -451,6 +481,12 @@ func (c13) Run(plan interface{}, schedSeed uint64, replay []simrt.Choice, lenien
 			}
 		}
 		v.Probe("send-with-cancelled-context")
+	}
+	if p.Flood && v.Class == "" && res.floodSteps > 12*(p.QueueSize+4) {
+		// (the consumer's OWN steps after the cancellation had taken effect - a receive costs it four to six: what
+		// was queued at that moment may still be handed out, a call that goes on taking what arrives keeps stepping;
+		// counts server messages as well, which the callback never sees)
+		v.Violate("late-return", "cancel: a receive goes on consuming packages after its context was cancelled", "NextPackageUntil (%d packages arriving, server messages: %v, queue size %d, %s context cancelled): the call made %d more steps after the cancellation before it returned", p.NPkgs, p.FloodEED, p.QueueSize, p.CancelWhat, res.floodSteps)
 	}
 	if p.Flood && v.Class == "" {
 		v.Probe("cancel-while-packets-keep-arriving")
@@ -588,7 +624,11 @@ func c13Cancel(p *c13Plan, res *c13Res, conn *tds.Conn, ch *tds.Channel, cancelP
 	// the library; the detector's reports about harness variables are ignored by the worker)
 	var consumerIn bool
 	var floodSeqs []int
-	cancelledSeq := -1
+	cancelledSeq, consumerRet := -1, -1
+	// the consumer's step counter, sampled by the consumer itself at every package (kept in its own variables: read
+	// by the root after the join) - stepsAtCancel is the last sample taken before the cancellation took effect
+	stepsAtCancel, consumerRetSteps, cancelSteps := -1, 0, -1
+	var stepSamples [][2]int // (event number, own steps)
 	consumer := simrt.Spawn("consumer", func() {
 		next := int32(1000)
 		for i := 0; i < p.NPkgs+6; i++ {
@@ -603,6 +643,7 @@ func c13Cancel(p *c13Plan, res *c13Res, conn *tds.Conn, ch *tds.Channel, cancelP
 					// (kept in the consumer's own slice and counted after the tasks have been joined: a variable shared with
 					// the canceller would be a race of the harness inside the library's call)
 					floodSeqs = append(floodSeqs, simrt.Record("flood-package", "", "", 0))
+					stepSamples = append(stepSamples, [2]int{floodSeqs[len(floodSeqs)-1], simrt.MySteps()})
 					simrt.Yield(0) // the consumer does something with the package
 					return false, nil
 				})
@@ -617,6 +658,10 @@ func c13Cancel(p *c13Plan, res *c13Res, conn *tds.Conn, ch *tds.Channel, cancelP
 			}
 			consumerIn = false
 			seq := simrt.Record("consumer-ret", "", "", 0)
+			if consumerRet < 0 && err != nil {
+				consumerRet = seq
+				consumerRetSteps = simrt.MySteps()
+			}
 			if err != nil {
 				if p.Consumer == "until-nil" && errors.Is(err, io.EOF) && p.Final {
 					// the whole response (with its final DONE) was consumed: the regular end of this call
@@ -666,8 +711,14 @@ func c13Cancel(p *c13Plan, res *c13Res, conn *tds.Conn, ch *tds.Channel, cancelP
 		}
 		// (cancelling is a scheduling point of its own: the context is cancelled when the call returns, not before)
 		cancelledSeq = simrt.Record("cancelled", p.CancelWhat, "", 0)
+		cancelSteps = consumer.Steps()
 	})
 	simrt.Join(consumer, canceller)
+	_ = stepSamples
+	stepsAtCancel = cancelSteps
+	if consumerRetSteps > 0 && stepsAtCancel >= 0 && consumerRetSteps > stepsAtCancel {
+		res.floodSteps = consumerRetSteps - stepsAtCancel
+	}
 	for _, sq := range floodSeqs {
 		if cancelledSeq >= 0 && sq > cancelledSeq {
 			res.afterCancel++
@@ -880,6 +931,7 @@ func c13ClosedCalls(p *c13Plan, res *c13Res, conn *tds.Conn, ch *tds.Channel) {
 		simrt.Sleep(time.Millisecond)
 	}
 	c13StallPeer()
+	c13BreakPipe()
 	var closer2 *simrt.Task
 	if p.ConcurrentClose {
 		// a second goroutine closes the same channel at the same time: whichever Close call returns first, the
@@ -946,6 +998,7 @@ func c13ConnClose(p *c13Plan, res *c13Res, conn *tds.Conn, ch0, ch *tds.Channel)
 		simrt.Sleep(time.Millisecond)
 	}
 	c13StallPeer()
+	c13BreakPipe()
 	if p.DeadPeer {
 		// the peer goes away and nobody receives: the reader queues one error per read timeout
 		c13EndPeer()
@@ -1026,7 +1079,14 @@ func c13CloseQueue(p *c13Plan, res *c13Res, conn *tds.Conn, ch *tds.Channel) {
 	}
 	c13StallPeer()
 	var setter *simrt.Task
-	if p.SetLast > 0 {
+	if p.SetLast == 3 {
+		// the consumer itself, between two receives (the response consists of DONE packages, which take no notice of
+		// the last package): with more packages outstanding than the queue holds the reader is waiting for room
+		ch.SetLastPkgRx(nil)
+		if c13Pending(p) > 0 {
+			ch.NextPackage(bg, true)
+		}
+	} else if p.SetLast > 0 {
 		setter = simrt.Spawn("setter", func() {
 			if p.SetLast == 1 {
 				ch.SetLastPkgRx(nil)
